@@ -33,6 +33,19 @@ ASSUME = {
 }
 
 
+_DISTILLED = None
+
+
+def distilled(uname):
+    """Coverage-distilled stratum (tools/distill.py): the ranks of this universe that, streamed in order, each added a line
+    or branch direction of pymarkdown/ not reached before.  Always part of the quick tier."""
+    global _DISTILLED
+    if _DISTILLED is None:
+        p = os.path.join(VERIF_DIR, "corpus", "distilled_parse.json")
+        _DISTILLED = json.load(open(p)) if os.path.exists(p) else {}
+    return _DISTILLED.get(uname, [])
+
+
 def plan_ranks(uname, tier, seed):
     u = universes.get(uname)
     if tier == "thorough":
@@ -41,6 +54,7 @@ def plan_ranks(uname, tier, seed):
     first = min(FIRST.get(uname, 0), u.size)
     rnd = random.Random(f"{seed}:{uname}")
     ranks = set(range(first))
+    ranks.update(r for r in distilled(uname) if r < u.size)
     ranks.update(rnd.sample(range(u.size), k))
     return sorted(ranks), len(ranks) == u.size
 
